@@ -15,8 +15,6 @@
 #include <cppcms/http_cookie.h>
 #include <cppcms/util.h>
 #include <algorithm>
-#include <sys/wait.h>
-#include <unistd.h>
 
 using vr::Outcome; using vr::ok; using vr::bad;
 using namespace c19;
@@ -192,15 +190,7 @@ static Outcome p_bytes(BCase const &c) {
         VR.eval(); VR.cls("bytes.as-type");
         DmgStat st; bool nt = false;
         Res r;
-        if (c.force_known) known_included().overrun = known_included().nullcpy = true;   // regression cases: same oracle, known classes not skipped
-        if (c.force_known == 2) {
-            // the sanitizer would abort this process: probe in a child so that the failure gets its own signature
-            fflush(0);
-            pid_t pid = fork();
-            if (pid == 0) { DmgStat s2; Res rr = check_load<T>(c.data, name, "regression", s2, 0); _exit(rr.ok() ? 0 : 3); }
-            int status = 0; waitpid(pid, &status, 0);
-            if (status != 0) { o = bad("archive:load-empty-pod-vector-memcpy-null", "loading an empty std::vector<POD> aborts under UBSan (memcpy with null destination in archive::read_chunk); child status " + std::to_string(status)); return; }
-        }
+        if (c.force_known) known_included().overrun = true;   // regression cases: same oracle, known class not skipped
         r = check_load<T>(c.data, name, c.force_known ? "regression" : "arbitrary-bytes", st, &nt);
         VR.nontrivial(vr::fnv(c.data, 500 + c.type));
         VR.cls("bytes.out.accepted", st.accept); VR.cls("bytes.out.rejected", st.reject); VR.cls("bytes.near-edge(+-4)", st.near_edge);
